@@ -653,6 +653,19 @@ def mallocAck (s : Ledger) (b : Buf) (n : Int) : Option (Ledger × Buf) :=
           | none => none
           | some tail => some (s.putAll (tail.map fun p => (p.1, p.2.discard)), { b with w := w })
 
+/-- `node.buf = node.buf[:node.malloc]` if `malloc > len(buf)` -/
+def NodeS.commit (nd : NodeS) : NodeS := if nd.pendLen > 0 then { nd with blen := nd.malloc } else nd
+
+/-- Flush's loop `for node := b.flush; node != b.write.next; ...` and `b.flush = b.write` -/
+def flushCommit (s : Ledger) (b : Buf) : Option (Ledger × Buf) :=
+  if b.f > b.w + 1 then none
+  else
+    match s.resolve ((b.chain.drop b.f).take (b.w + 1 - b.f)) with
+    | none => none
+    | some mid =>
+      let n := (mid.map fun p => if p.2.pendLen > 0 then p.2.pendLen.toNat else 0).foldl (· + ·) 0
+      some (s.putAll (mid.map fun p => (p.1, p.2.commit)), { b with f := b.w, length := b.length + n })
+
 /-- `Flush()` -/
 def flush (cfg : Cfg) (s : Ledger) (b : Buf) : Option (Ledger × Buf) :=
   match b.chain[b.w]? with
@@ -661,20 +674,11 @@ def flush (cfg : Cfg) (s : Ledger) (b : Buf) : Option (Ledger × Buf) :=
     match s.nodes[wi]? with
     | none => none
     | some wn =>
-      let b := { b with mallocSize := 0 }
-      let (s, b) : Ledger × Buf :=
-        if wn.cap > cfg.pagesize then
-          let (s, c) := s.newNode cfg 0
-          (s, { b with chain := b.chain.take (b.w + 1) ++ [c], w := b.w + 1 })
-        else (s, b)
-      if b.f > b.w + 1 then none
-      else
-        match s.resolve ((b.chain.drop b.f).take (b.w + 1 - b.f)) with
-        | none => none
-        | some mid =>
-          let done := mid.map fun p => (p.1, if p.2.pendLen > 0 then { p.2 with blen := p.2.malloc } else p.2)
-          let n := (mid.map fun p => if p.2.pendLen > 0 then p.2.pendLen.toNat else 0).foldl (· + ·) 0
-          some (s.putAll done, { b with f := b.w, length := b.length + n })
+      -- `if cap(b.write.buf) > pagesize { b.write.next = newLinkBufferNode(0); b.write = b.write.next }`
+      if wn.cap > cfg.pagesize then
+        flushCommit (s.newNode cfg 0).1
+          { b with mallocSize := 0, chain := b.chain.take (b.w + 1) ++ [(s.newNode cfg 0).2], w := b.w + 1 }
+      else flushCommit s { b with mallocSize := 0 }
 
 /-- `WriteBuffer(buf)`: (b, donor) -/
 def writeBuffer (cfg : Cfg) (s : Ledger) (b d : Buf) : Option (Ledger × Buf × Buf) :=
@@ -743,43 +747,59 @@ def markSplit (s : Ledger) : List Nat → Ledger
       | none => s
     markSplit s rest
 
+/-- WriteDirect's `dataNode`: a fresh unmanaged struct wrapping the caller's slice (block `cb`) -/
+def dataNode (cfg : Cfg) (s : Ledger) (cb n ecap : Nat) : Ledger × Nat :=
+  ((s.newNode cfg 0).1.setNode (s.newNode cfg 0).2 { unmanaged := true, block := some cb, malloc := n, cap := ecap },
+   (s.newNode cfg 0).2)
+
+/-- the struct WriteDirect's split makes for the rest of the origin's memory:
+`newNode{buf = origin.buf[:malloc], off = malloc, malloc = origin.malloc}`; it owns the memory iff origin did -/
+def NodeS.splitTail (origin : NodeS) (m : Nat) : NodeS :=
+  { block := origin.block, lo := origin.lo, blen := m, off := m, malloc := origin.malloc, cap := origin.cap,
+    unmanaged := origin.unmanaged }
+
+/-- WriteDirect's split of node `o`: the new tail struct; the origin keeps `[0, m)` and becomes unmanaged -/
+def splitNodes (cfg : Cfg) (s : Ledger) (o : Nat) (origin : NodeS) (m : Nat) : Ledger × Nat :=
+  (((s.newNode cfg 0).1.setNode (s.newNode cfg 0).2 (origin.splitTail m)).setNode o { origin with malloc := m, unmanaged := true },
+   (s.newNode cfg 0).2)
+
+/-- the linking part of WriteDirect, origin found at chain index `oi` with insertion offset `m` -/
+def writeDirectAt (cfg : Cfg) (s : Ledger) (b : Buf) (n ecap : Nat) (remain : Int) (cb oi o : Nat) (origin : NodeS) (m : Nat) :
+    Option (Ledger × Buf) :=
+  let sd := dataNode cfg s cb n ecap
+  if m > origin.cap ∧ remain > 0 then none
+  else if b.w ≥ b.chain.length then none
+  else if remain > 0 then
+    let sp := splitNodes cfg sd.1 o origin m
+    some (sp.1, { b with chain := b.chain.take oi ++ [o, sd.2, sp.2] ++ b.chain.drop (oi + 1),
+                         w := (b.chain.take oi ++ [o, sd.2, sp.2] ++ b.chain.drop (oi + 1)).length - 1,
+                         mallocSize := b.mallocSize + n })
+  else
+    some (sd.1, { b with chain := b.chain.take oi ++ [o, sd.2] ++ b.chain.drop (oi + 1),
+                         w := (b.chain.take oi ++ [o, sd.2] ++ b.chain.drop (oi + 1)).length - 1,
+                         mallocSize := b.mallocSize + n })
+
 /-- `WriteDirect(extra, remainLen)`, `len(extra) = n`, `cap(extra) = ecap` -/
 def writeDirect (cfg : Cfg) (s : Ledger) (b : Buf) (n ecap : Nat) (remain : Int) : Option (Ledger × Buf) :=
   if n = 0 ∨ remain < 0 then some (s, b)
   else
-    let (s, cb) := s.allocBlock .caller (max ecap n)
-    match s.resolve (b.chain.drop b.f) with
+    let s1 := (s.allocBlock .caller (max ecap n)).1
+    let cb := (s.allocBlock .caller (max ecap n)).2
+    match s1.resolve (b.chain.drop b.f) with
     | none => none
     | some suf =>
       match originLoop suf ((b.mallocSize : Int) - remain) with
       | none => none
       | some (k, m) =>
-        let oi := b.f + k
-        match b.chain[oi]? with
+        match b.chain[b.f + k]? with
         | none => none
         | some o =>
-          match s.nodes[o]? with
+          match s1.nodes[o]? with
           | none => none
           | some origin =>
-            let m := m + origin.blen
-            if m < 0 then none
-            else
-              let m := m.toNat
-              let (s, dn) := s.newNode cfg 0
-              let s := s.setNode dn { unmanaged := true, block := some cb, malloc := n, cap := ecap }
-              if m > origin.cap ∧ remain > 0 then none
-              else if b.w ≥ b.chain.length then none
-              else
-                let (s, chain) : Ledger × List Nat :=
-                  if remain > 0 then
-                    let (s, nn) := s.newNode cfg 0
-                    -- newNode{buf = origin.buf[:malloc], off = malloc, malloc = origin.malloc}; it owns the memory iff origin did
-                    let s := s.setNode nn { block := origin.block, lo := origin.lo, blen := m, off := m, malloc := origin.malloc,
-                                            cap := origin.cap, unmanaged := origin.unmanaged }
-                    let s := s.setNode o { origin with malloc := m, unmanaged := true }
-                    (s, b.chain.take oi ++ [o, dn, nn] ++ b.chain.drop (oi + 1))
-                  else (s, b.chain.take oi ++ [o, dn] ++ b.chain.drop (oi + 1))
-                some (s, { b with chain := chain, w := chain.length - 1, mallocSize := b.mallocSize + n })
+            -- `malloc += len(origin.buf)`; a negative slice bound panics
+            if m + origin.blen < 0 then none
+            else writeDirectAt cfg s1 b n ecap remain cb (b.f + k) o origin (m + origin.blen).toNat
 
 /-- `Close()` (without the ghost end of the views) -/
 def close (cfg : Cfg) (s : Ledger) (id : Nat) (b : Buf) : Option (Ledger × Buf) :=
@@ -824,6 +844,23 @@ def getBytes (s : Ledger) (id : Nat) (b : Buf) (k : Nat) : Option (Ledger × Buf
             some ((s.setNode i { fl with exposed := true }).addView fl.block (fl.lo + fl.off) (fl.lo + fl.blen) id, b)
       else some (s, b)
 
+/-- `b.write.Malloc(l)`, the kernel filling `min n l` bytes, then `bookAck` -/
+def bookFill (s : Ledger) (b : Buf) (l n : Nat) : Option (Ledger × Buf) :=
+  match b.chain[b.w]? with
+  | none => none
+  | some wi =>
+    match s.nodes[wi]? with
+    | none => none
+    | some wn =>
+      if wn.malloc + l > wn.cap then none
+      else if min n l + wn.blen > wn.cap then none
+      else
+        let s1 := match wn.block with
+          | some blk => if min n l > 0 then s.emit (.write blk (wn.lo + wn.malloc) (wn.lo + wn.malloc + min n l)) else s
+          | none => s
+        some (s1.setNode wi { wn with malloc := min n l + wn.blen, blen := min n l + wn.blen },
+              { b with f := b.w, length := b.length + min n l })
+
 /-- `book(bookSize, maxSize)`, the kernel filling `min n booked` bytes, `bookAck` -/
 def bookAck (cfg : Cfg) (s : Ledger) (b : Buf) (bookSize maxSize n : Nat) : Option (Ledger × Buf) :=
   match b.chain[b.w]? with
@@ -832,29 +869,12 @@ def bookAck (cfg : Cfg) (s : Ledger) (b : Buf) (bookSize maxSize n : Nat) : Opti
     match s.nodes[wi]? with
     | none => none
     | some wn =>
-      let l := wn.cap - wn.malloc
-      let (s, b, l) : Ledger × Buf × Nat :=
-        if l = 0 then
-          let (s, c) := s.newNode cfg maxSize
-          (s, { b with chain := b.chain.take (b.w + 1) ++ [c], w := b.w + 1 }, maxSize)
-        else (s, b, l)
-      let l := if l > bookSize then bookSize else l
-      match b.chain[b.w]? with
-      | none => none
-      | some wi =>
-        match s.nodes[wi]? with
-        | none => none
-        | some wn =>
-          if wn.malloc + l > wn.cap then none
-          else
-            let n := min n l
-            if n + wn.blen > wn.cap then none
-            else
-              let s := match wn.block with
-                | some blk => if n > 0 then s.emit (.write blk (wn.lo + wn.malloc) (wn.lo + wn.malloc + n)) else s
-                | none => s
-              let s := s.setNode wi { wn with malloc := n + wn.blen, blen := n + wn.blen }
-              some (s, { b with f := b.w, length := b.length + n })
+      if wn.cap - wn.malloc = 0 then
+        -- grow: `b.write.next = newLinkBufferNode(maxSize)`
+        bookFill (s.newNode cfg maxSize).1
+          { b with chain := b.chain.take (b.w + 1) ++ [(s.newNode cfg maxSize).2], w := b.w + 1 }
+          (if maxSize > bookSize then bookSize else maxSize) n
+      else bookFill s b (if wn.cap - wn.malloc > bookSize then bookSize else wn.cap - wn.malloc) n
 
 /-- `resetTail(maxSize)` -/
 def resetTail (cfg : Cfg) (s : Ledger) (b : Buf) (maxSize : Nat) : Option (Ledger × Buf) :=
